@@ -79,7 +79,7 @@ def gen(rng, tier):
         st = dict(giant_at=rng.randrange(max(1, N)), c=2.0 ** rng.randint(-3, 8), base=rng.uniform(0.1, 10.0))
         universe = rng.choice([3, 10, 40, 1000])
         cnt = {r: 0 for r in ks}
-        post_deser = rng.random() < 0.3
+        post_deser = rng.random() < 0.7
         for i in range(N):
             r = rng.randrange(nreg)
             q = rng.random()
@@ -120,11 +120,85 @@ def gen(rng, tier):
             ops.append([5, r, 100 + r, rng.randrange(3)]); ops.append([3, 100 + r])
             ops.append([4, 100 + r, 0, 0])
             if cnt[r] > ks[r]: tags.add('estimation-mode')
-        if tags & {'estimation-mode', 'serde'}:
+        if ci % 2 == 1:
+            srcs = sorted(ks) + [100 + r for r in sorted(ks)]
+            union_phase(rng, ops, tags, srcs, list(ks.values()), pat, st, universe, 0)
+        if tags & {'estimation-mode', 'serde', 'union'}:
             tags.add('exact-weights' if exact else 'arbitrary-doubles')
             tags.add('pat-' + pat)
         cases.append(dict(id='vo%d' % ci, ops=ops, tags=sorted(tags), exact=exact))
+    for ci in range(ncases // 3):
+        cases.append(union_case(rng, ci))
     return cases
+
+def union_phase(rng, ops, tags, srcs, klist, pat, st, universe, u):
+    """union register u over the sketch registers srcs; result goes to registers 200.."""
+    tags.add('union')
+    nsamp = sum(klist)
+    maxk = rng.choice([1, 2, 3, 4, 8, 32, min(klist), max(klist), nsamp, nsamp + 1, rng.randint(1, 40)])
+    if rng.random() < 0.05:
+        ops.append([10, u, rng.choice([0, 2 ** 31 - 1])])     # refused
+    ops.append([10, u, maxk])
+    if rng.random() < 0.2:
+        ops.append([12, u, 200]); ops.append([3, 200])          # result of an empty union
+    for j in range(rng.choice([1, 2, 2, 3, 4, 5])):
+        if rng.random() < 0.08:
+            ops.append([98] + [rng.choice([0, d2b(0.5), d2b(1 - 2 ** -53), rng.randrange(1 << 20)]) for _ in range(rng.randint(1, 3))])
+        ops.append([11, u, rng.choice(srcs)])
+        if rng.random() < 0.5:
+            ops.append([14, u])
+        if rng.random() < 0.3:
+            ops.append([12, u, 200]); ops.append([3, 200]); tags.add('union-intermediate-result')
+    ops.append([14, u]); ops.append([12, u, 200]); ops.append([3, 200])
+    for p in PREDS:
+        ops.append([4, 200, p[0], p[1]])
+    nmore = rng.choice([0, 1, 3, 10, 40])
+    for j in range(nmore):
+        w = weight(rng, pat, j, nmore, st)
+        ops.append([2, 200, rng.randrange(universe) + 5000, d2b(w)])
+        if rng.random() < 0.1:
+            ops.append([3, 200])
+    if nmore:
+        tags.add('update-after-union')
+    ops.append([3, 200]); ops.append([4, 200, 0, 0])
+    ops.append([5, 200, 201, rng.randrange(3)]); ops.append([3, 201])
+    if rng.random() < 0.25:
+        ops.append([13, u]); ops.append([14, u]); tags.add('union-reset')
+        ops.append([11, u, rng.choice(srcs)]); ops.append([11, u, 201])
+        ops.append([14, u]); ops.append([12, u, 202]); ops.append([3, 202]); ops.append([4, 202, 0, 0])
+
+def union_case(rng, ci):
+    """sketches of different k and fill state (empty, under-full, exactly full, estimation mode), equal or different taus"""
+    ops = [[99, rng.randrange(1, 2 ** 32)]]
+    tags = set()
+    pat = rng.choice(['ones', 'ones', 'smallint', 'heavytail', 'pow2', 'giant', 'inc', 'tenths', 'uniform'])
+    exact = pat not in ('tenths', 'uniform')
+    nreg = rng.choice([2, 2, 3, 4])
+    same_k = rng.random() < 0.4
+    k0 = rng.choice([1, 2, 3, 4, 5, 8, 16])
+    klist = []
+    universe = rng.choice([10, 1000])
+    for r in range(nreg):
+        k = k0 if same_k else rng.choice([1, 2, 3, 4, 5, 7, 8, 16, rng.randint(1, 20)])
+        klist.append(k)
+        ops.append([1, r, k, rng.randrange(4)])
+        n = rng.choice([0, 1, k - 1, k, k + 1, k + 1, 2 * k, 2 * k, 5 * k, 5 * k + 3])
+        if same_k and rng.random() < 0.5:
+            n = 3 * k0
+        n = max(0, n)
+        st = dict(giant_at=rng.randrange(max(1, n)), c=1.0, base=1.0)
+        for i in range(n):
+            ops.append([2, r, rng.randrange(universe) + 10000 * r, d2b(weight(rng, pat, i, n, st))])
+        if n > k:
+            tags.add('estimation-mode')
+        if rng.random() < 0.3:
+            ops.append([3, r])
+    st = dict(giant_at=0, c=1.0, base=1.0)
+    union_phase(rng, ops, tags, list(range(nreg)), klist, pat, st, universe, 0)
+    if same_k:
+        tags.add('union-same-k')
+    tags.add('pat-' + pat)
+    return dict(id='vu%d' % ci, ops=ops, tags=sorted(tags), exact=exact)
 
 # ---------------------------------------------------------------------------------------------------------------
 def fr(bits):
@@ -157,9 +231,11 @@ def case_exact(case):
 def oracle(case, irecs, mrecs):
     """Property predicates on the implementation's outputs; ground truth (S lines) from the model's ghost log."""
     fails = []
-    exact = case_exact(case)
+    exact0 = case_exact(case)
+    exact = exact0
     # per-register bookkeeping of the oracle itself (which registers came out of deserialize, which lost an update)
     reg = {}
+    ureg = {}
     def bad(sig, what, i):
         fails.append(dict(sig=sig, what=what, op_index=i))
     for i, op in enumerate(case['ops']):
@@ -167,9 +243,10 @@ def oracle(case, irecs, mrecs):
             break
         R = irecs[i]['R']; S = mrecs[i].get('S'); F = irecs[i].get('F')
         c = op[0]
+        exact = exact0 and not (c in (2, 3, 4) and len(op) > 1 and reg.get(op[1], {}).get('union'))
         if c == 1 and len(op) >= 3:
             if R == [1]:
-                reg[op[1]] = dict(k=op[2], cnt=0, deser=False, taint=False)
+                reg[op[1]] = dict(k=op[2], cnt=0, deser=False, taint=False, union=False, light_h=False)
             elif 1 <= op[2] <= 2 ** 31 - 2:
                 bad('ctor_refused', 'constructor refused valid k=%d' % op[2], i)
         elif c == 2 and len(op) >= 4 and op[1] in reg:
@@ -183,7 +260,12 @@ def oracle(case, irecs, mrecs):
                         bad('update_throws_after_deserialize',
                             'update() with valid weight %r throws on a sketch obtained from deserialize() of an estimation-mode '
                             'sketch (n=%d > k=%d); n_ is incremented, the item is lost' % (b2d(op[3]), g['cnt'], g['k']), i)
-                    elif g['cnt'] > g['k'] and not exact:
+                    elif g['union'] and g['light_h']:
+                        bad('update_throws_on_union_result',
+                            'update() with valid weight %r throws on the sketch returned by var_opt_union::get_result(): the result '
+                            'holds an H item lighter than its tau (pseudo-exact shortcut taken although an unmarked H item is lighter '
+                            'than the outer tau); n_ is incremented, the item is lost' % b2d(op[3]), i)
+                    elif g['cnt'] > g['k'] and (not exact or g['union']):
                         bad('update_throws_in_estimation_mode',
                             'update() with valid weight %r throws std::logic_error on an estimation-mode sketch built by updates only '
                             '(n=%d > k=%d, non-dyadic weights): rounding left the lightest H item below tau; n_ is incremented, the '
@@ -203,12 +285,21 @@ def oracle(case, irecs, mrecs):
             elif not reg[op[1]]['taint']:
                 bad('roundtrip_refused', 'serialize/deserialize round trip threw', i)
         elif c == 6 and op[1] in reg and R == [1]:
-            reg[op[1]] = dict(k=reg[op[1]]['k'], cnt=0, deser=False, taint=False)
+            reg[op[1]] = dict(k=reg[op[1]]['k'], cnt=0, deser=False, taint=False, union=False, light_h=False)
         elif c == 7 and len(op) >= 3 and op[1] in reg and R == [1]:
             reg[op[2]] = dict(reg[op[1]])
         elif c == 3 and op[1] in reg and S and R != [-1] and not reg[op[1]]['taint']:
             n, k, ns, h, r, totb = R[:6]
             smp = list(zip(R[6::2], R[7::2]))
+            g = reg[op[1]]
+            if g['union']:
+                g['k'] = k
+                if k > g['maxk'] or ns > k:
+                    bad('union_result_k', 'union result has k=%d, %d samples; union max_k=%d' % (k, ns, g['maxk']), i)
+                if r > 0:
+                    tau0 = b2d(totb) / r
+                    g['light_h'] = any(b2d(wb) < tau0 * (1 - 1e-9) for _, wb in smp)
+            exact = exact0 and not g['union']
             n_true, total_scaled = S[0], S[1]
             log = list(zip(S[2::2], S[3::2]))
             total = Fraction(total_scaled, SCALE)
@@ -268,6 +359,54 @@ def oracle(case, irecs, mrecs):
                     bad('bounds_order', 'lb %r <= est %r <= ub %r violated (predicate %d)' % (lb, est, ub, op[2]), i)
         elif c == 4 and op[1] in reg and R == [-1] and not reg[op[1]]['taint']:
             bad('estimate_threw', 'estimate_subset_sum threw', i)
+        elif c == 10 and len(op) >= 3:
+            if R == [1]:
+                ureg[op[1]] = dict(maxk=op[2], cnt=0, taint=False, est=False)
+            elif 1 <= op[2] <= 2 ** 31 - 2:
+                bad('ctor_refused', 'union constructor refused valid max_k=%d' % op[2], i)
+        elif c == 11 and len(op) >= 3 and op[1] in ureg and op[2] in reg:
+            u = ureg[op[1]]; g = reg[op[2]]
+            if g['taint']:
+                u['taint'] = True
+            elif R != [1]:
+                if not u['taint']:
+                    bad('union_update_throws_rounding',
+                        'var_opt_union::update(sketch) threw: the gadget\'s update() hit std::logic_error("sketch not in valid estimation '
+                        'mode") (union n=%d so far, sketch n=%d, k=%d); binary64 rounding left the lightest H item of the gadget below '
+                        'its tau; the union is left half-updated' % (u['cnt'], g['cnt'], g['k']), i)
+                u['taint'] = True
+            else:
+                u['cnt'] += g['cnt']
+                if g['cnt'] > g['k']:
+                    u['est'] = True
+        elif c == 12 and len(op) >= 3 and op[1] in ureg:
+            u = ureg[op[1]]
+            if R == [1]:
+                reg[op[2]] = dict(k=u['maxk'], cnt=u['cnt'], deser=False, taint=u['taint'], union=True, light_h=False, maxk=u['maxk'])
+            elif not u['taint']:
+                if u['est']:
+                    bad('union_result_throws_rounding',
+                        'var_opt_union::get_result() threw (union n=%d, max_k=%d, some input in estimation mode): decrease_k_by_1 '
+                        're-inserts an H item through update(), which throws std::logic_error("sketch not in valid estimation mode") '
+                        'when binary64 rounding leaves the lightest H item below tau' % (u['cnt'], u['maxk']), i)
+                else:
+                    bad('union_result_threw', 'var_opt_union::get_result() threw (union n=%d, max_k=%d, all inputs in exact mode)' %
+                        (u['cnt'], u['maxk']), i)
+        elif c == 13 and op[1] in ureg and R == [1]:
+            ureg[op[1]] = dict(maxk=ureg[op[1]]['maxk'], cnt=0, taint=False, est=False)
+        elif c == 14 and op[1] in ureg and S and R != [-1] and not ureg[op[1]]['taint']:
+            un, numb, den, maxk, marks = R[:5]
+            gn, gk, gns, gh, gr, gtotb = R[5:11]
+            smp = list(zip(R[11::2], R[12::2]))
+            n_true = S[0]; total = Fraction(S[1], SCALE)
+            if un != n_true:
+                bad('union_n', 'union n %d != sum of the n of the sketches given to it %d' % (un, n_true), i)
+            if gk != maxk or gns > maxk:
+                bad('union_result_k', 'gadget k=%d samples=%d, max_k=%d' % (gk, gns, maxk), i)
+            ssum = sum((fr(wb) for _, wb in smp), Fraction(0))
+            if not close(ssum, total, False):
+                bad('union_weight_not_conserved', 'gadget sample weights sum to %s, total input weight of the sketches %s' %
+                    (float(ssum), float(total)), i)
     return fails
 
 FAMILIES = [dict(name='varopt', harness='drv_varopt.cpp', extract='Extract_varopt.v', model='model_varopt', gen=gen, oracle=oracle,
